@@ -230,4 +230,164 @@ theorem dfsMerge_not_fuel (hfiles : ∀ p, (fs.stat p).isSome = true → p ∈ f
 
 end
 
+
+/-! ## termination over a CLOSED UNIVERSE of path spellings (real file systems, alias spellings) -/
+
+section
+variable (K : Classes) (fs : FS) (dir : List Char) (U : List (List Char))
+
+/-- `U` is closed under "is included by": whatever a readable, parsable member of `U` includes
+(after glob expansion and the `.dae` / directory filter) is again in `U`.  On a real finite
+directory tree such a finite `U` always exists although every file has infinitely many spellings:
+only finitely many include values are WRITTEN (contents do not depend on the spelling), each
+expands to finitely many glob answers, so `U = {entry} ∪ all those answers` is finite and closed. -/
+def ClosedUniverse : Prop :=
+  ∀ p ∈ U, ∀ fi, fs.stat p = some fi → ∀ ss, parse K fi.content = some ss →
+    ∀ pats, includePatterns dir ((sectionsToMap ss).get "include".toList) = .ok pats →
+      ∀ children, unsqueeze fs pats = .ok children → ∀ c ∈ children, c ∈ U
+
+/-- a successful `readEntry` read and parsed the file -/
+theorem readEntry_ok_facts (st st1 : MState) (entry : List Char) (own : SMap)
+    (h : readEntry K fs dir st entry = (st1, .ok own)) :
+    ∃ fi ss, fs.stat entry = some fi ∧ parse K fi.content = some ss ∧ own = sectionsToMap ss := by
+  unfold readEntry at h
+  split at h
+  · simp at h
+  · split at h
+    · simp at h
+    · split at h
+      · simp at h
+      · split at h
+        · simp at h
+        · rename_i fi hstat
+          split at h
+          · simp at h
+          · split at h
+            · simp at h
+            · split at h
+              · simp at h
+              · rename_i ss hparse
+                simp only [Prod.mk.injEq, Except.ok.injEq] at h
+                exact ⟨fi, ss, hstat, hparse, h.2.symm⟩
+
+def VisIn (st : MState) : Prop := st.visited.Nodup ∧ ∀ p ∈ st.visited, p ∈ U
+
+theorem readEntry_visIn (st : MState) (entry : List Char) (he : entry ∈ U) (h : VisIn U st) :
+    VisIn U (readEntry K fs dir st entry).1 := by
+  rcases readEntry_cases K fs dir st entry with ⟨hv, _⟩ | ⟨hv, hne, _⟩
+  · unfold VisIn; rw [hv]; exact h
+  · unfold VisIn; rw [hv]
+    refine ⟨List.nodup_append.mpr ⟨h.1, by simp, ?_⟩, ?_⟩
+    · intro a ha b hb
+      simp only [List.mem_singleton] at hb
+      subst hb
+      rintro rfl
+      exact hne ha
+    · intro p hp
+      rcases List.mem_append.mp hp with hp | hp
+      · exact h.2 p hp
+      · simp only [List.mem_singleton] at hp; subst hp; exact he
+
+/-- what one level needs from the level below -/
+def LevelOK (n : Nat) : Prop :=
+  ∀ st entry, entry ∈ U → VisIn U st →
+    VisIn U (dfsMerge K fs dir n st entry).1 ∧
+    (U.length + 1 ≤ n + st.visited.length → (dfsMerge K fs dir n st entry).2 ≠ .error .fuel)
+
+theorem dfsChildren_closed (n : Nat) (hT : LevelOK K fs dir U n) :
+    ∀ (cs : List (List Char)) (st : MState) (acc : SMap), (∀ c ∈ cs, c ∈ U) → VisIn U st →
+      VisIn U (dfsChildren K fs dir n st acc cs).1 ∧
+      (U.length + 1 ≤ n + st.visited.length → (dfsChildren K fs dir n st acc cs).2 ≠ .error .fuel) := by
+  intro cs
+  induction cs with
+  | nil => intro st acc _ hv; simp only [dfsChildren]; exact ⟨hv, fun _ => by simp⟩
+  | cons c cs ih =>
+    intro st acc hcs hv
+    obtain ⟨h1, h2⟩ := hT st c (hcs c List.mem_cons_self) hv
+    have h3 := (dfsMerge_visited_prefix K fs dir n st c).length_le
+    rw [dfsChildren]
+    split
+    · rename_i st' e heq
+      rw [heq] at h1 h2
+      exact ⟨h1, h2⟩
+    · rename_i st' m heq
+      rw [heq] at h1 h3
+      obtain ⟨i1, i2⟩ := ih st' (mergeInto acc m) (fun c' hc' => hcs c' (List.mem_cons_of_mem _ hc')) h1
+      exact ⟨i1, fun hlen => i2 (by simp only at h3; omega)⟩
+
+theorem levelOK_all (hU : ClosedUniverse K fs dir U) : ∀ n, LevelOK K fs dir U n := by
+  intro n
+  induction n with
+  | zero =>
+    intro st entry _ hv
+    refine ⟨by simpa [dfsMerge] using hv, ?_⟩
+    intro hlen
+    have := nodup_subset_length_le st.visited U hv.1 hv.2
+    omega
+  | succ n ih =>
+    intro st entry he hv
+    have hcases := readEntry_cases K fs dir st entry
+    have hv1 := readEntry_visIn K fs dir U st entry he hv
+    rw [dfsMerge]
+    split
+    · rename_i st1 e heq
+      rw [heq] at hv1 hcases
+      refine ⟨hv1, fun _ hfuel => ?_⟩
+      simp only [Except.error.injEq] at hfuel
+      subst hfuel
+      have : ∀ (st : MState) (entry : List Char), (readEntry K fs dir st entry).2 ≠ .error .fuel := by
+        intro st entry
+        unfold readEntry
+        repeat' split
+        all_goals simp
+      exact this st entry (by rw [heq])
+    · rename_i st1 own heq
+      rw [heq] at hv1 hcases
+      have hvis : st1.visited = st.visited ++ [entry] := by
+        rcases hcases with ⟨_, e', he', _⟩ | ⟨h, _, _⟩
+        · simp at he'
+        · exact h
+      obtain ⟨fi, ss, hstat, hparse, hown⟩ := readEntry_ok_facts K fs dir st st1 entry own heq
+      split
+      · rename_i e hpe
+        refine ⟨hv1, fun _ hfuel => ?_⟩
+        simp only [Except.error.injEq] at hfuel
+        subst hfuel
+        exact includePatterns_not_fuel dir _ hpe
+      · rename_i pats hpats
+        split
+        · rename_i e hue
+          refine ⟨hv1, fun _ hfuel => ?_⟩
+          simp only [Except.error.injEq] at hfuel
+          subst hfuel
+          exact unsqueeze_not_fuel fs _ hue
+        · rename_i children hch
+          have hin : ∀ c ∈ children, c ∈ U :=
+            hU entry he fi hstat ss hparse pats (by rw [← hown]; exact hpats) children hch
+          obtain ⟨c1, c2⟩ := dfsChildren_closed K fs dir U n ih children st1 own hin hv1
+          refine ⟨c1, fun hlen => c2 ?_⟩
+          rw [hvis]
+          simp only [List.length_append, List.length_cons, List.length_nil]
+          omega
+
+end
+
+
+/-- a file system whose globs match nothing includes nothing -/
+theorem unsqueeze_empty_globs (fs : FS) (hg : ∀ p, fs.glob p = some []) :
+    ∀ (pats children : List (List Char)), unsqueeze fs pats = .ok children → children = [] := by
+  intro pats
+  induction pats with
+  | nil => intro children h; simp only [unsqueeze, Except.ok.injEq] at h; exact h.symm
+  | cons p rest ih =>
+    intro children h
+    unfold unsqueeze at h
+    rw [hg p] at h
+    simp only [keepFiles] at h
+    split at h
+    · simp at h
+    · rename_i b hb
+      simp only [Except.ok.injEq, List.nil_append] at h
+      rw [← h]; exact ih b hb
+
 end DaeVerif.C17
